@@ -637,6 +637,30 @@ def _null_container(name, inner):
     return h
 
 
+def _ctype(name, fn):
+    def h(it, st, args, node):
+        if args and isinstance(args[0], Int):
+            c = args[0].v
+            if -1 <= c <= 255:
+                return [(st, Int(fn(c & 0xff) if c >= 0 else (c if name in ('tolower', 'toupper') else 0)))]
+        t = Term(('pure', name) + tuple(vkey(a) for a in args))
+        return [(st, t)]
+    return h
+
+
+CTYPE = {
+    'tolower': lambda c: c + 32 if 65 <= c <= 90 else c,
+    'toupper': lambda c: c - 32 if 97 <= c <= 122 else c,
+    'isalpha': lambda c: int(65 <= c <= 90 or 97 <= c <= 122),
+    'isupper': lambda c: int(65 <= c <= 90),
+    'islower': lambda c: int(97 <= c <= 122),
+    'isdigit': lambda c: int(48 <= c <= 57),
+    'isalnum': lambda c: int(65 <= c <= 90 or 97 <= c <= 122 or 48 <= c <= 57),
+    'isspace': lambda c: int(c in (32, 9, 10, 11, 12, 13)),
+    'isxdigit': lambda c: int(48 <= c <= 57 or 65 <= c <= 70 or 97 <= c <= 102),
+}
+
+
 def h_noop_ret0(it, st, args, node):
     return [(st, Int(0))]
 
@@ -657,6 +681,8 @@ def build_model(overrides=None):
     m['json_array_append_new'] = _takes_value('json_array_append_new', 1)
     m['json_object_set_new_nocheck'] = _takes_value('json_object_set_new_nocheck', 2)
     m['strcpy'] = h_strcpy
+    for name, fn in CTYPE.items():
+        m[name] = _ctype(name, fn)
     for name in NULL_CONTAINER:
         if name in m:
             m[name] = _null_container(name, m[name])
